@@ -833,7 +833,10 @@ inline RefDecoded refDecode(const Bytes &m, bool full = true)
 // ------------------------------------------------------------------------------------------------
 static const unsigned char kByteClasses[6] = {0x00, 0x01, 0x3f, 0x40, 0xc0, 0xff};
 
-inline void forEachMutant(const Built &b, const std::function<void(const char *, const Bytes &)> &fn)
+// headerMutations = false: byte substitutions inside the 12 header bytes and the header-count mutations are skipped
+// (they are applied to the first compression layout of every spec only: a decoder reserves memory for 0xffff
+// records on each of them, ~1 ms under ASan, and the header is identical across the layouts of one spec).
+inline void forEachMutant(const Built &b, const std::function<void(const char *, const Bytes &)> &fn, bool headerMutations = true)
 {
   const Bytes &w = b.wire;
   size_t n = w.size();
@@ -846,7 +849,7 @@ inline void forEachMutant(const Built &b, const std::function<void(const char *,
   }
   // 2. every single-byte substitution over the byte classes
   Bytes m = w;
-  for (size_t i = 0; i < n; ++i)
+  for (size_t i = headerMutations ? 0 : (n < 12 ? n : 12); i < n; ++i)
   {
     for (unsigned char c : kByteClasses)
     {
@@ -859,7 +862,7 @@ inline void forEachMutant(const Built &b, const std::function<void(const char *,
     m[i] = w[i];
   }
   // 3. header counts +-1 and 0xffff
-  for (int k = 0; k < 4; ++k)
+  for (int k = 0; k < 4 && headerMutations; ++k)
   {
     size_t off = size_t(4 + 2 * k);
     unsigned v = rd16(w, off);
